@@ -213,268 +213,298 @@ def base_self(it):
     return DBObj(RelVal(('R',), 'D_db', 'S_db'), RelVal(('inv', ('R',)), 'D_rdb', 'S_rdb'))
 
 
-def r1_r5_derivations(rep, src):
+GEN = {'pkg-one': {'role::a', 'role::b'}, 'pkg-two': {'role::b'}, 'pkg-three': {'role::b', 'use::c'}, 'pkg-none': set(), 'pkg-five': {'use::d'}}
+KEEP_P = {'pkg-one', 'pkg-three', 'pkg-none'}
+KEEP_T = {'role::a', 'use::c', 'role::zzz'}
+
+
+def _inverse(db):
+    out = {}
+    for k, vs in db.items():
+        for v in vs:
+            out.setdefault(v, set()).add(k)
+    return out
+
+
+def _world(src, db=None):
+    from .. import heap as H
+    heap = H.Heap(src.mod(M))
+    heap.symbolic_strings = True
+    heap.native_regex = True
+    heap.hooks['function_deprecated_by'] = lambda it, a, k: a[0]
+    me = heap.alloc('DB', {}, name='@db')
+    d, r = heap.new_dict('@db.db'), heap.new_dict('@db.rdb')
+    rel = GEN if db is None else db
+    for k, vs in rel.items():
+        heap.objs[d.name]['entries'].append((k, set(vs)))
+    for k, vs in _inverse(rel).items():
+        heap.objs[r.name]['entries'].append((k, set(vs)))
+    heap.objs[me.name]['db'] = d
+    heap.objs[me.name]['rdb'] = r
+    return heap, H.Interp(heap), me
+
+
+def _plain(heap, dref):
+    """heap dict of sets -> python dict (key -> frozenset), plus the set objects"""
+    from .. import heap as H
+    if not (isinstance(dref, H.Ref) and heap.objs[dref.name]['__class__'] == 'dict'):
+        return None, []
+    out, objs = {}, []
+    for k, v in heap.objs[dref.name]['entries']:
+        out[k] = frozenset(v) if isinstance(v, (set, frozenset)) else v
+        objs.append(v)
+    return out, objs
+
+
+def r6_generic_relation(rep, src):
+    """every collection-returning method of DB, the module functions and insert() interpreted on a generic finite relation
+    (packages with several / shared / no tags, multi-character names, filters that keep some, drop all users of a tag, and name
+    absent keys).  Checked against a reference computed here: the content of the result, `rdb = inverse(db)` (no tag without
+    packages), and -- for the methods documented as copying -- that no set object of the result is one of the receiver's."""
+    from .. import heap as H
+    m = src.mod(M)
+
+    def arg_for(pname):
+        if pname in ('package_filter', 'filter_data'):
+            return ('hook', 'PF')
+        if pname == 'tag_filter':
+            return ('hook', 'TF')
+        if pname == 'package_iter':
+            return ['pkg-one', 'pkg-three', 'pkg-none']
+        if pname == 'package_tag_filter':
+            return ('hook', 'PTF')
+        return None
+    spec = {
+        'copy': lambda: dict(GEN), 'reverse': lambda: _inverse(GEN), 'reverse_copy': lambda: _inverse(GEN),
+        'choose_packages': lambda: {p: GEN[p] for p in GEN if p in KEEP_P}, 'choose_packages_copy': lambda: {p: GEN[p] for p in GEN if p in KEEP_P},
+        'filter_packages': lambda: {p: GEN[p] for p in GEN if p in KEEP_P}, 'filter_packages_copy': lambda: {p: GEN[p] for p in GEN if p in KEEP_P},
+        'filter_packages_tags': lambda: {p: GEN[p] for p in GEN if p in KEEP_P and GEN[p]}, 'filter_packages_tags_copy': lambda: {p: GEN[p] for p in GEN if p in KEEP_P and GEN[p]},
+        'filter_tags': lambda: _inverse({t: ps for t, ps in _inverse(GEN).items() if t in KEEP_T}),
+        'filter_tags_copy': lambda: _inverse({t: ps for t, ps in _inverse(GEN).items() if t in KEEP_T}),
+        'facet_collection': lambda: {p: {t.split(':')[0] for t in ts} for p, ts in GEN.items()},
+    }
+    n = 0
+    for q, f in sorted(m.funcs.items()):
+        if not q.startswith('DB.') or '.' in q[3:] or '#' in q or q[3:].startswith('_'):
+            continue
+        if not any(isinstance(c, ast.Call) and norm(c.func) == 'DB' for c in ast.walk(f.node)) and \
+                not any(isinstance(r_, ast.Return) and isinstance(r_.value, ast.Call) and isinstance(r_.value.func, ast.Attribute)
+                        and norm(r_.value.func.value) == 'self' and ('DB.' + r_.value.func.attr) in m.funcs for r_ in ast.walk(f.node)):
+            continue
+        mname = q[3:]
+        args = [arg_for(p_) for p_ in f.params()[1:]]
+        if any(a_ is None for a_ in args):
+            raise AnalysisError('%s: no generic argument for the parameters %s' % (f.site, f.params()[1:]))
+        rep.saw_func(f)
+        heap, it, me = _world(src)
+        heap.hooks['PF'] = lambda it_, a, k: a[0] in KEEP_P
+        heap.hooks['TF'] = lambda it_, a, k: a[0] in KEEP_T
+        heap.hooks['PTF'] = lambda it_, a, k: a[0][0] in KEEP_P and bool(a[0][1])
+        args = [heap.new_list(a_) if isinstance(a_, list) else a_ for a_ in args]
+        _, own_sets = _plain(heap, heap.objs[me.name]['db'])
+        _, own_rsets = _plain(heap, heap.objs[me.name]['rdb'])
+        try:
+            res = it.call(H.Closure(f.node, {}, me, f.cls), args)
+        except H.Raised as x:
+            rep.fail('C20.R1', f.site, 'result indexes are inverse', 'raises %s (line %d) on the generic relation' % (x.exc, x.lineno), where=f.where)
+            continue
+        if not (isinstance(res, H.Ref) and heap.objs[res.name]['__class__'] == 'DB'):
+            continue
+        n += 1
+        db, dsets = _plain(heap, heap.objs[res.name].get('db'))
+        rdb, rsets = _plain(heap, heap.objs[res.name].get('rdb'))
+        what = 'result indexes are inverse'
+        if db is None or rdb is None:
+            rep.fail('C20.R1', f.site, what, 'the returned collection has no db/rdb dictionaries', where=f.where)
+            continue
+        inv_ = {k: frozenset(v) for k, v in _inverse(db).items()}
+        pairs_r = {(t, p_) for t, ps_ in rdb.items() for p_ in ps_}
+        pairs_d = {(t, p_) for p_, ts_ in db.items() for t in ts_}
+        letters = [t for t, p_ in pairs_r - pairs_d if len(p_) == 1]
+        via_insert = any(isinstance(c, ast.Call) and isinstance(c.func, ast.Attribute) and c.func.attr == 'insert' for c in ast.walk(f.node))
+        empties = [t for t, ps_ in rdb.items() if not ps_]
+        exploded = all(set(p_) <= set(rdb.get(t, ())) for t, p_ in pairs_d - pairs_r)
+        if via_insert and letters and exploded:
+            # the collection is built through insert(): its new-tag entries show the character-set defect of insert()
+            ins_ = src.func(M + ':DB.insert')
+            rep.fail('C20.R2', ins_.site, 'a new tag lists the package itself',
+                     'the collection built by %s through insert() lists %s under the tag %r instead of the packages: set() of a string is the set of its characters'
+                     % (mname, sorted(rdb[letters[0]])[:6], letters[0]), where=ins_.where)
+        elif pairs_r != pairs_d or (empties and mname not in ('reverse', 'reverse_copy', 'copy')):
+            diff = sorted(pairs_r ^ pairs_d)[:3] or empties[:3]
+            rep.fail('C20.R1', f.site, what, 'on the generic relation the returned collection has db = %s but rdb = %s: the two indexes describe different relations (differing at %s)'
+                     % ({k: sorted(v) for k, v in db.items()}, {k: sorted(v) for k, v in rdb.items()}, diff[:3]), where=f.where)
+        else:
+            rep.ok('C20.R1', f.site, what, 'rdb = inverse(db) on the generic relation (%d packages, %d tags in the result)' % (len(db), len(rdb)))
+        if mname in spec:
+            want = {k: frozenset(v) for k, v in spec[mname]().items()}
+            if db != want:
+                rep.fail('C20.R1', f.site, 'result content', '%s returns the packages/tags %s; documented result: %s' % (mname, {k: sorted(v) for k, v in db.items()}, {k: sorted(v) for k, v in want.items()}), where=f.where)
+            else:
+                rep.ok('C20.R1', f.site, 'result content', 'as documented')
+        # ownership of the set objects
+        shared_r = [s_ for s_ in rsets if any(s_ is o for o in own_sets + own_rsets)]
+        shared_d = [s_ for s_ in dsets if any(s_ is o for o in own_rsets)]
+        same_dicts = {heap.objs[res.name]['db'].name, heap.objs[res.name]['rdb'].name} == {'@db.db', '@db.rdb'}
+        doc = (ast.get_docstring(f.node) or '').lower()
+        if (shared_r or shared_d) and not same_dicts:
+            rep.fail('C20.R5', f.site, 'no shared mutable sets',
+                     'the returned collection is a separate object but its %s index uses set objects of the receiver, which a later insert() on either collection '
+                     'extends in place: afterwards one collection lists a package under a tag without listing the tag for the package%s'
+                     % ('tag→packages' if shared_r else 'package→tags', ' (the docstring promises a copy)' if 'copy' in doc and 'sharing' not in doc else ''), where=f.where)
+        else:
+            rep.ok('C20.R5', f.site, 'no shared mutable sets', 'same dictionaries as the receiver' if same_dicts else 'no set object that insert() mutates is shared')
+    if n < 12:
+        raise AnalysisError('only %d collection-returning methods interpreted (12 confirmed on the pinned tree)' % n)
+    # module-level reverse()
+    g = src.func(M + ':reverse')
+    rep.saw_func(g)
+    heap, it, me = _world(src)
+    try:
+        r_ = it.call(H.Closure(g.node, {}, None, None), [heap.objs[me.name]['db']])
+        got, _s = _plain(heap, r_)
+        want = {k: frozenset(v) for k, v in _inverse(GEN).items()}
+        if got == want:
+            rep.ok('C20.R3', g.site, 'reverse() computes the inverse relation', 'on the generic relation')
+        else:
+            rep.fail('C20.R3', g.site, 'reverse() computes the inverse relation', 'reverse() gives %s instead of %s' % (got, want), where=g.where)
+    except H.Raised as x:
+        rep.fail('C20.R3', g.site, 'reverse() computes the inverse relation', 'raises %s' % x.exc, where=g.where)
+    # insert(): histories on an empty and on a filled collection
+    ins = src.func(M + ':DB.insert')
+    rep.saw_func(ins)
+    for start, label in (({}, 'an empty collection'), (GEN, 'the generic collection')):
+        heap, it, me = _world(src, start)
+        hist = [('pkg-new', {'role::b', 'x::new'}), ('pkg-other', {'x::new'})]
+        ok = True
+        try:
+            for pkg, tags in hist:
+                it.call(H.Closure(ins.node, {}, me, ins.cls), [pkg, set(tags)])
+        except H.Raised as x:
+            rep.fail('C20.R3', ins.site, 'insert adds every pair to both indexes (%s)' % label, 'raises %s' % x.exc, where=ins.where)
+            continue
+        db, _a = _plain(heap, heap.objs[me.name]['db'])
+        rdb, _b = _plain(heap, heap.objs[me.name]['rdb'])
+        want_db = {k: frozenset(v) for k, v in dict(start, **{p_: t_ for p_, t_ in hist}).items()}
+        want_rdb = {k: frozenset(v) for k, v in _inverse(want_db).items()}
+        if db != want_db:
+            rep.fail('C20.R3', ins.site, 'insert adds every pair to both indexes (%s)' % label, 'after inserting %s the package index is %s' % (hist, db), where=ins.where)
+        elif rdb == want_rdb:
+            rep.ok('C20.R3', ins.site, 'insert adds every pair to both indexes (%s)' % label, 'both indexes hold the new pairs')
+        else:
+            bad_tags = sorted(t for t in want_rdb if rdb.get(t) != want_rdb[t])
+            letters = [t for t in bad_tags if rdb.get(t) is not None and any(len(x) == 1 for x in rdb[t])]
+            if letters:
+                # the tag→packages entry of a NEW tag holds the characters of the package name
+                rep.fail('C20.R2', ins.site, 'a new tag lists the package itself',
+                         'after insert(%r, ...) on %s the new tag %r lists %s instead of the package: set() of a string is the set of its characters'
+                         % (hist[0][0], label, letters[0], sorted(rdb[letters[0]])[:6]), where=ins.where)
+            others = [t for t in bad_tags if t not in letters]
+            if others:
+                rep.fail('C20.R3', ins.site, 'insert adds every pair to both indexes (%s)' % label,
+                         'after the inserts the tag index differs from the inverse of the package index at %s: %s vs %s' % (others[:3], {t: sorted(rdb.get(t, [])) for t in others[:3]},
+                                                                                                                         {t: sorted(want_rdb.get(t, [])) for t in others[:3]}), where=ins.where)
+            elif letters:
+                rep.ok('C20.R3', ins.site, 'insert adds every pair to both indexes (%s)' % label, 'apart from the character-set entry reported under C20.R2', nontrivial=False)
+    # the reader: both indexes from one pass, with and without a tag filter
+    h = src.func(M + ':read_tag_database_both_ways')
+    rep.saw_func(h)
+    lines = ['pkg-one, pkg-two: role::b\n', 'pkg-one: role::a, role::b\n', 'pkg-none\n', 'pkg-three: role::b, use::c\n', '\n']
+    for with_filter in (False, True):
+        heap, it, me = _world(src)
+        heap.hooks['TF'] = lambda it_, a, k: a[0] in KEEP_T
+        what = 'reader fills both indexes from the same sets%s' % (' (with a tag filter)' if with_filter else '')
+        try:
+            r_ = it.call(H.Closure(h.node, {}, None, None), [heap.new_list(list(lines)), ('hook', 'TF') if with_filter else None])
+        except H.Raised as x:
+            rep.fail('C20.R3', h.site, what, 'raises %s (line %d)' % (x.exc, x.lineno), where=h.where)
+            continue
+        pair = it.seq(r_)
+        db, _a = _plain(heap, pair[0])
+        rdb, _b = _plain(heap, pair[1])
+        ref = {'pkg-one': {'role::a', 'role::b'}, 'pkg-two': {'role::b'}, 'pkg-none': set(), 'pkg-three': {'role::b', 'use::c'}}
+        if with_filter:
+            ref = {p_: {t for t in ts if t in KEEP_T} for p_, ts in ref.items()}
+        want_db = {k: frozenset(v) for k, v in ref.items()}
+        want_rdb = {k: frozenset(v) for k, v in _inverse(ref).items()}
+        if db == want_db and rdb == want_rdb:
+            rep.ok('C20.R3', h.site, what, '%d packages, %d tags' % (len(db), len(rdb)))
+        else:
+            rep.fail('C20.R3', h.site, what, 'reading %r gives db = %s and rdb = %s; the indexes must be %s and its inverse %s'
+                     % (lines, {k: sorted(v) for k, v in (db or {}).items()}, {k: sorted(v) for k, v in (rdb or {}).items()},
+                        {k: sorted(v) for k, v in want_db.items()}, {k: sorted(v) for k, v in want_rdb.items()}), where=h.where)
+    # queries answer from the right index
+    queries = {'has_package': (['pkg-two'], True), 'has_tag': (['use::c'], True), 'tags_of_package': (['pkg-three'], {'role::b', 'use::c'}),
+               'packages_of_tag': (['role::b'], {'pkg-one', 'pkg-two', 'pkg-three'}), 'card': (['role::b'], 3), 'package_count': ([], len(GEN)),
+               'tag_count': ([], len(_inverse(GEN))), 'iter_packages': ([], set(GEN)), 'iter_tags': ([], set(_inverse(GEN)))}
+    for mname, (args, want) in queries.items():
+        qf = src.func(M + ':DB.' + mname)
+        rep.saw_func(qf)
+        heap, it, me = _world(src)
+        try:
+            r_ = it.call(H.Closure(qf.node, {}, me, qf.cls), list(args))
+        except H.Raised as x:
+            r_ = 'raises ' + x.exc
+        got = r_
+        if isinstance(r_, (set, frozenset)):
+            got = set(r_)
+        elif isinstance(r_, list) or heap.is_list(r_):
+            got = set(it.seq(r_))
+        if got == want:
+            rep.ok('C20.R4', qf.site, '%s(%s)' % (mname, ', '.join(args)), repr(want)[:60], nontrivial=False)
+        else:
+            rep.fail('C20.R4', qf.site, '%s(%s)' % (mname, ', '.join(args)), 'answers %r on the generic collection instead of %r' % (got, want), where=qf.where)
+
+
+def check(src, rep, tier):
+    rep.explanation = ('C20: (generic relation) every collection-returning method of DB, reverse(), insert() histories, the reader (with and without a '
+                       'tag filter) and the queries are interpreted by the abstract interpreter of sa.heap on a generic finite relation and compared with '
+                       'a reference: documented content, rdb = inverse(db) with no empty tag entries, identity of set objects for the ownership rule.  '
+                       '(relation algebra) in addition every derivation method is interpreted over relation expressions (R, inverse, restriction) with '
+                       'dictionary/set ownership tags, which decides the paired-assignment obligation for all relations; methods outside that vocabulary '
+                       'are only covered by the generic relation (noted).')
+    rep.not_decided = ['re-insertion of an existing package', 'pickle round trip', 'equality with a reference relation for arbitrary histories']
+    rep.need('C20.R1', 20)
+    rep.need('C20.R3', 4)
+    rep.need('C20.R4', 8)
+    rep.need('C20.R5', 12)
+    rep.guard('C20.R1', r6_generic_relation, src)
+    rep.guard('C20.R1', r1_algebra, src)
+
+
+def r1_algebra(rep, src):
+    """the relation-algebra interpretation (for all relations) of the derivation methods, helpers inlined"""
+    from .. import normalize
+    from ..core import Func, set_parents
     it = Interp(src, rep)
     m = src.mod(M)
     n = 0
     for q, f in sorted(m.funcs.items()):
-        if not q.startswith('DB.') or '.' in q[3:] or '#' in q:
+        if not q.startswith('DB.') or '.' in q[3:] or '#' in q or q[3:].startswith('_'):
             continue
-        # methods that construct and return a collection
         if not any(isinstance(r, ast.Return) and r.value is not None for r in ast.walk(f.node)):
             continue
-        makes = any(isinstance(c, ast.Call) and norm(c.func) == 'DB' for c in ast.walk(f.node)) or \
-            any(isinstance(r, ast.Return) and isinstance(r.value, ast.Call) and isinstance(r.value.func, ast.Attribute)
-                and ('DB.' + r.value.func.attr) in m.funcs and norm(r.value.func.value).startswith('self') for r in ast.walk(f.node))
-        if not makes:
+        node, _ = normalize.inline_helpers(f)
+        set_parents(node)
+        g = Func(f.module, node, f.qual, f.cls)
+        if not any(isinstance(c, ast.Call) and norm(c.func) == 'DB' for c in ast.walk(node)):
             continue
-        rep.saw_func(f)
         selfobj = base_self(it)
         it.depth = 0
         try:
-            res = it.run_method(f, selfobj)
+            res = it.run_method(g, selfobj)
         except AnalysisError as e:
-            rep.error('C20.R1', str(e))
+            rep.note('C20 relation algebra: %s is outside its vocabulary (%s); decided on the generic relation only' % (f.site, str(e)[:80]))
             continue
-        if res is None:
+        if res is None or res.built_by_insert:
             continue
         n += 1
-        where = f.where
-        if res.built_by_insert:
-            rep.ok('C20.R1', f.site, 'result indexes are inverse', 'built from an empty collection by insert() only (see C20.R3)')
-            rep.ok('C20.R5', f.site, 'no shared mutable sets', 'fresh collection')
-            continue
         want = inv(res.db.rel)
         if res.rdb.rel == want:
-            rep.ok('C20.R1', f.site, 'result indexes are inverse', 'db = %s, rdb = %s' % (show(res.db.rel), show(res.rdb.rel)))
+            rep.ok('C20.R1', f.site, 'result indexes are inverse for every relation', 'db = %s, rdb = %s' % (show(res.db.rel), show(res.rdb.rel)))
         else:
-            rep.fail('C20.R1', f.site, 'result indexes are inverse', 'the returned collection has db = %s but rdb = %s (expected %s): the two '
-                     'indexes describe different relations' % (show(res.db.rel), show(res.rdb.rel), show(want)), where=where)
-        # ownership: insert() mutates rdb-role sets in place (on the result and on the receiver)
-        same_dicts = {res.db.dict_id, res.rdb.dict_id} == {'D_db', 'D_rdb'}
-        problems = []
-        if not same_dicts:
-            if res.db.sets == 'S_rdb' or res.rdb.sets == 'S_rdb':
-                problems.append('it shares the receiver\'s tag→packages sets, which a later insert() on the receiver extends in place')
-            if res.rdb.sets in ('S_db', 'S_rdb'):
-                problems.append('its tag→packages index uses set objects of the receiver, which a later insert() on the result extends in place')
-        doc = ast.get_docstring(f.node) or ''
-        if problems:
-            rep.fail('C20.R5', f.site, 'no shared mutable sets',
-                     'the returned collection is a separate object but %s: after such an insert the other collection lists a package under a tag '
-                     'without listing the tag for the package%s' % ('; '.join(problems), ' (the docstring promises a copy)' if 'copy' in doc.lower() and 'sharing' not in doc.lower() else ''),
-                     where=where)
-        else:
-            rep.ok('C20.R5', f.site, 'no shared mutable sets', 'same dictionaries as the receiver' if same_dicts else
-                   'db sets: %s, rdb sets: %s' % (res.db.sets.split(':')[0], res.rdb.sets.split(':')[0]))
-    if n < 12:
-        raise AnalysisError('only %d collection-returning methods analysed (12 confirmed on the pinned tree)' % n)
-    # DB.read
-    f = src.func(M + ':DB.read')
-    t = norm(f.node)
-    if 'self.db, self.rdb = read_tag_database_both_ways(' in t:
-        rep.ok('C20.R1', f.site, 'read fills both indexes from one pass', 'self.db, self.rdb = read_tag_database_both_ways(...)', nontrivial=False)
-    else:
-        rep.fail('C20.R1', f.site, 'read fills both indexes from one pass', 'read() does not assign (db, rdb) from read_tag_database_both_ways in this order', where=f.where)
+            rep.fail('C20.R1', f.site, 'result indexes are inverse for every relation', 'the returned collection has db = %s but rdb = %s (expected %s): the two '
+                     'indexes describe different relations' % (show(res.db.rel), show(res.rdb.rel), show(want)), where=f.where)
+    rep.extra['algebraic_methods'] = n
 
 
-# ---- kinds -----------------------------------------------------------------------------------------
-
-def kind_show(k):
-    if isinstance(k, tuple):
-        return '%s[%s]' % (k[0], ', '.join(kind_show(x) for x in k[1:]))
-    return k
-
-
-def r2_kinds(rep, src):
-    """stores into self.db / self.rdb (and the local indexes of the module functions) type-check under
-       db: Dict[PKG, Set[TAG]]   rdb: Dict[TAG, Set[PKG]]"""
-    f = src.func(M + ':DB.insert')
-    rep.saw_func(f)
-    ps = f.params()
-    env = {ps[1]: 'PKG', ps[2]: ('Set', 'TAG')}
-    decl = {'self.db': ('Dict', 'PKG', ('Set', 'TAG')), 'self.rdb': ('Dict', 'TAG', ('Set', 'PKG'))}
-
-    def kind(e, env):
-        if isinstance(e, ast.Name):
-            return env.get(e.id, 'UNKNOWN')
-        if isinstance(e, ast.Call):
-            fn = norm(e.func)
-            if isinstance(e.func, ast.Attribute) and e.func.attr == 'copy' and not e.args:
-                return kind(e.func.value, env)
-            if fn in ('set', 'frozenset'):
-                if not e.args:
-                    return ('Set', 'BOTTOM')
-                a = kind(e.args[0], env)
-                if a in ('PKG', 'TAG', 'STR'):
-                    return ('Set', 'CHAR')          # iterating a string yields its characters
-                if isinstance(a, tuple) and a[0] in ('Set', 'List', 'Tuple'):
-                    return ('Set', a[1])
-                return ('Set', 'UNKNOWN')
-        if isinstance(e, ast.Set):
-            ks = {kind(x, env) for x in e.elts}
-            return ('Set', ks.pop()) if len(ks) == 1 else ('Set', 'UNKNOWN')
-        if isinstance(e, (ast.Tuple, ast.List)) and e.elts:
-            ks = {kind(x, env) for x in e.elts}
-            return ('Tuple' if isinstance(e, ast.Tuple) else 'List', ks.pop()) if len(ks) == 1 else ('Tuple', 'UNKNOWN')
-        if isinstance(e, ast.Subscript) and norm(e.value) in decl:
-            return decl[norm(e.value)][2]
-        return 'UNKNOWN'
-
-    def compatible(got, want):
-        if got == want:
-            return True
-        if isinstance(got, tuple) and isinstance(want, tuple) and got[0] == want[0]:
-            return got[1] in ('BOTTOM',) or got[1] == want[1]
-        return False
-    n = 0
-
-    def walk(stmts, env):
-        nonlocal n
-        for st in stmts:
-            if isinstance(st, ast.For) and isinstance(st.target, ast.Name):
-                k = kind(st.iter, env)
-                env2 = dict(env)
-                env2[st.target.id] = k[1] if isinstance(k, tuple) and k[0] == 'Set' else 'UNKNOWN'
-                walk(st.body, env2)
-            elif isinstance(st, ast.If):
-                walk(st.body, env)
-                walk(st.orelse, env)
-            elif isinstance(st, ast.Assign) and isinstance(st.targets[0], ast.Subscript) and norm(st.targets[0].value) in decl:
-                d = decl[norm(st.targets[0].value)]
-                kk, vk = kind(st.targets[0].slice, env), kind(st.value, env)
-                n += 1
-                what = norm(st)
-                if kk != d[1]:
-                    rep.fail('C20.R2', f.site, what, 'key of kind %s stored in %s: %s' % (kind_show(kk), norm(st.targets[0].value), kind_show(d)), where='%s:%d' % (f.module.relpath, st.lineno))
-                elif not compatible(vk, d[2]):
-                    rep.fail('C20.R2', f.site, what, '`%s` has kind %s where %s requires %s%s' % (norm(st.value), kind_show(vk), norm(st.targets[0].value), kind_show(d[2]),
-                             ': set() of a string is the set of its characters, so a new tag lists the letters of the package name instead of the package'
-                             if vk == ('Set', 'CHAR') else ''), where='%s:%d' % (f.module.relpath, st.lineno))
-                else:
-                    rep.ok('C20.R2', f.site, what, '%s : %s' % (norm(st.value), kind_show(vk)))
-            elif isinstance(st, ast.Expr) and isinstance(st.value, ast.Call) and isinstance(st.value.func, ast.Attribute) \
-                    and st.value.func.attr in ('add', 'update', 'discard') and isinstance(st.value.func.value, ast.Subscript) \
-                    and norm(st.value.func.value.value) in decl:
-                d = decl[norm(st.value.func.value.value)]
-                kk = kind(st.value.func.value.slice, env)
-                ak = kind(st.value.args[0], env)
-                n += 1
-                what = norm(st)
-                want = d[2][1] if st.value.func.attr == 'add' else d[2]
-                if kk != d[1] or not (ak == want or compatible(ak, want)):
-                    rep.fail('C20.R2', f.site, what, 'adds a %s under a %s key of %s: %s' % (kind_show(ak), kind_show(kk), norm(st.value.func.value.value), kind_show(d)),
-                             where='%s:%d' % (f.module.relpath, st.lineno))
-                else:
-                    rep.ok('C20.R2', f.site, what, 'adds %s under %s' % (kind_show(ak), kind_show(kk)))
-    walk(f.node.body, env)
-    if n < 3:
-        raise AnalysisError('%s: only %d stores analysed' % (f.site, n))
-
-
-def r3_pairs_added_to_both(rep, src):
-    # insert: every tag of `tags` gets pkg on every path of the loop body
-    f = src.func(M + ':DB.insert')
-    ps = f.params()
-    pkg, tags = ps[1], ps[2]
-    loops = [s for s in f.node.body if isinstance(s, ast.For)]
-    ok = False
-    if len(loops) == 1 and norm(loops[0].iter) == tags and isinstance(loops[0].target, ast.Name):
-        tv = loops[0].target.id
-        b = loops[0].body
-        if len(b) == 1 and isinstance(b[0], ast.If) and norm(b[0].test) in ('%s in self.rdb' % tv, '%s not in self.rdb' % tv):
-            has, new = (b[0].body, b[0].orelse) if norm(b[0].test).find(' not in ') < 0 else (b[0].orelse, b[0].body)
-            ok = any(norm(s) == 'self.rdb[%s].add(%s)' % (tv, pkg) for s in has) and \
-                any(isinstance(s, ast.Assign) and norm(s.targets[0]) == 'self.rdb[%s]' % tv for s in new)
-        elif any(norm(s).startswith('self.rdb.setdefault(%s' % tv) and norm(s).endswith('.add(%s)' % pkg) for s in b):
-            ok = True
-    first = [s for s in f.node.body if isinstance(s, ast.Assign) and norm(s.targets[0]) == 'self.db[%s]' % pkg]
-    if ok and first and norm(first[0].value) in ('%s.copy()' % tags, 'set(%s)' % tags):
-        rep.ok('C20.R3', f.site, 'insert adds every pair to both indexes', 'db[pkg] = tags.copy(); for tag in tags: rdb[tag] gets pkg on both branches')
-    else:
-        rep.fail('C20.R3', f.site, 'insert adds every pair to both indexes', 'insert() does not record each (package, tag) pair in both indexes', where=f.where)
-    # reverse(): res[tag] gets pkg for every (pkg, tag)
-    g = src.func(M + ':reverse')
-    rep.saw_func(g)
-    t = norm(g.node)
-    outer = [s for s in g.node.body if isinstance(s, ast.For)]
-    ok = False
-    if len(outer) == 1 and isinstance(outer[0].target, ast.Tuple) and norm(outer[0].iter) == '%s.items()' % g.params()[0]:
-        k, vs = [norm(x) for x in outer[0].target.elts]
-        inner = [s for s in outer[0].body if isinstance(s, ast.For)]
-        if len(inner) == 1 and norm(inner[0].iter) == vs and len(outer[0].body) == 1:
-            e = norm(inner[0].target)
-            body = inner[0].body
-            adds = [s for s in body if norm(s) == 'res[%s].add(%s)' % (e, k)]
-            inits = [s for s in body if isinstance(s, ast.If) and norm(s.test) == '%s not in res' % e and norm(s.body[0]) == 'res[%s] = set()' % e and not s.orelse]
-            ok = len(adds) == 1 and len(inits) == 1 and body.index(inits[0]) < body.index(adds[0]) and len(body) == 2
-    if ok and 'return res' in t:
-        rep.ok('C20.R3', g.site, 'reverse() computes the inverse relation', 'for k, vs in db.items(): for v in vs: res[v].add(k)')
-    else:
-        rep.fail('C20.R3', g.site, 'reverse() computes the inverse relation', 'reverse() does not add each key under each of its values', where=g.where)
-    # reader: the tag set stored for the packages and the tag set iterated for the reverse index are the same object
-    h = src.func(M + ':read_tag_database_both_ways')
-    rep.saw_func(h)
-    loop = [s for s in h.node.body if isinstance(s, ast.For)]
-    ok = False
-    why = 'reader loop not recognised'
-    if len(loop) == 1 and isinstance(loop[0].target, ast.Tuple):
-        pk, tg = [norm(x) for x in loop[0].target.elts]
-        inner = [s for s in loop[0].body if isinstance(s, ast.For)]
-        dbl = [l for l in inner if any(isinstance(s, ast.Assign) and norm(s.targets[0]).startswith('db[') for s in l.body)]
-        rdl = [l for l in inner if l not in dbl]
-        if len(dbl) == 1 and len(rdl) == 1:
-            stored = [s for s in dbl[0].body if isinstance(s, ast.Assign)][0]
-            sv = stored.value
-            sname = norm(sv.func.value) if isinstance(sv, ast.Call) and isinstance(sv.func, ast.Attribute) and sv.func.attr == 'copy' else norm(sv)
-            iterated = norm(rdl[0].iter)
-            pk_iter = norm(dbl[0].iter)
-            adds = [s for s in ast.walk(rdl[0]) if isinstance(s, (ast.AugAssign, ast.Assign))]
-            pk_used = all(pk in norm(s.value) for s in adds)
-            if sname != iterated:
-                why = 'the tag set stored for the packages (%s) is not the tag set whose tags are indexed (%s): with a tag filter the two indexes differ' % (sname, iterated)
-            elif pk_iter != pk or not pk_used:
-                why = 'the packages stored and the packages indexed differ'
-            else:
-                ok = True
-    if ok:
-        rep.ok('C20.R3', h.site, 'reader fills both indexes from the same sets', 'db[pkg] = T.copy() for pkg in P; dbr[tag] ∪= P for tag in T')
-    else:
-        rep.fail('C20.R3', h.site, 'reader fills both indexes from the same sets', why, where=h.where)
-
-
-def r4_queries(rep, src):
-    table = {'tags_of_package': 'db', 'has_package': 'db', 'package_count': 'db', 'iter_packages': 'db', 'iter_packages_tags': 'db',
-             'packages_of_tag': 'rdb', 'has_tag': 'rdb', 'card': 'rdb', 'tag_count': 'rdb', 'iter_tags': 'rdb', 'iter_tags_packages': 'rdb'}
-    for mname, idx in table.items():
-        f = src.func(M + ':DB.' + mname)
-        used = {n.attr for n in ast.walk(f.node) if isinstance(n, ast.Attribute) and norm(n.value) == 'self' and n.attr in ('db', 'rdb')}
-        if used == {idx}:
-            rep.ok('C20.R4', f.site, 'reads self.' + idx, 'ok', nontrivial=False)
-        else:
-            rep.fail('C20.R4', f.site, 'reads self.' + idx, '%s consults %s instead of self.%s' % (mname, sorted('self.' + u for u in used) or 'nothing', idx), where=f.where)
-    f = src.func(M + ':DB.card')
-    if 'len(self.rdb[%s])' % f.params()[1] in norm(f.node):
-        rep.ok('C20.R4', f.site, 'cardinality = size of the package set', 'len(self.rdb[tag])', nontrivial=False)
-    else:
-        rep.fail('C20.R4', f.site, 'cardinality = size of the package set', 'card() is not the size of the tag\'s package set', where=f.where)
-
-
-def check(src, rep, tier):
-    rep.explanation = ('C20: every DB method that returns a collection is interpreted over a relation algebra: the receiver is (R, inverse(R)); '
-                       'dictionary-building loops become key restrictions, reverse() becomes inverse, dict.copy() a shallow copy; at the return '
-                       'the obligation rdb = inverse(db) is compared syntactically after normalisation (R1) and the ownership tags decide '
-                       'whether a set that insert() extends in place is shared between two collections that do not share both dictionaries '
-                       '(R5).  Kinds PKG/TAG/CHAR/Set/Dict are inferred for the stores of insert() (R2).  Loop-shape rules show that insert(), '
-                       'reverse() and the reader add every (package, tag) pair to both sides from the same sets (R3).  Query methods read '
-                       'the index of their role (R4).')
-    rep.not_decided = ['re-insertion of an existing package', 'pickle round trip', 'equality with a reference relation for arbitrary histories']
-    rep.need('C20.R1', 12)
-    rep.need('C20.R2', 3)
-    rep.need('C20.R3', 3)
-    rep.need('C20.R4', 11)
-    rep.need('C20.R5', 12)
-    rep.guard('C20.R1', r1_r5_derivations, src)
-    rep.guard('C20.R2', r2_kinds, src)
-    rep.guard('C20.R3', r3_pairs_added_to_both, src)
-    rep.guard('C20.R4', r4_queries, src)
